@@ -4,8 +4,11 @@ import (
 	"fmt"
 	"go/ast"
 	"go/token"
+	"regexp"
 	"sort"
 	"strings"
+
+	"golang.org/x/tools/go/ssa"
 )
 
 var fsmCache = map[string]*fsmResult{}
@@ -43,6 +46,40 @@ func ruleU1(c *Ctx) {
 	}
 	g := r.grouped(r.trans)
 	c.check(len(r.states) >= 18 && len(g) >= 80, "U1", "fsm-size", token.NoPos, fmt.Sprintf("ParseURI automaton: %d states, %d grouped transitions", len(r.states), len(g)))
+	// roles of the loop-carried locals, found structurally (neutral to renaming)
+	iN, sN, accN, pwN, root := "", "", uriAccName(g), "", ""
+	if iff, ok := r.head.Instrs[len(r.head.Instrs)-1].(*ssa.If); ok {
+		if bo, ok := iff.Cond.(*ssa.BinOp); ok {
+			if ph, ok := bo.X.(*ssa.Phi); ok {
+				iN = ph.Comment
+			}
+		}
+	}
+	cntS := map[string]int{}
+	reSet := regexp.MustCompile(`\.Set\(\+([A-Za-z_]\w*),\+` + regexp.QuoteMeta(iN) + `\)$`)
+	rePw := regexp.MustCompile(`^Pass\.Set\(\+([A-Za-z_]\w*)\+1,\+` + regexp.QuoteMeta(iN) + `\)$`)
+	reRoot := regexp.MustCompile(`^User\.Set\(\+([A-Za-z_]\w*)\.Host\.Offs,`)
+	for _, t := range g {
+		for _, cl := range t.Calls {
+			if m := reSet.FindStringSubmatch(cl); m != nil {
+				cntS[m[1]]++
+			}
+			if m := rePw.FindStringSubmatch(cl); m != nil {
+				pwN = m[1]
+			}
+			if m := reRoot.FindStringSubmatch(cl); m != nil {
+				root = m[1]
+			}
+		}
+	}
+	for k, n := range cntS {
+		if n > cntS[sN] {
+			sN = k
+		}
+	}
+	c.check(iN != "" && sN != "" && accN != "" && pwN != "" && root != "", "U1", "roles", token.NoPos,
+		fmt.Sprintf("loop-carried locals identified by role: index %s, component start %s, port accumulator %s, password candidate %s, result object %s", iN, sN, accN, pwN, root))
+	setSI := ".Set(+" + sN + ",+" + iN + ")"
 	nclose := 0
 	for _, t := range g {
 		if t.Exit != "" {
@@ -59,7 +96,7 @@ func ruleU1(c *Ctx) {
 		nclose++
 		back := false
 		for _, s := range sets {
-			if strings.Contains(s, "puri.Host.Offs") {
+			if strings.Contains(s, root+".Host.Offs") {
 				back = true
 			}
 		}
@@ -67,13 +104,13 @@ func ruleU1(c *Ctx) {
 			// '@' after a ';' / '?' / ':' : the host-so-far becomes the user part
 			hasPass := false
 			for _, cd := range t.Conds {
-				if strings.Contains(cd, "passOffs") && !strings.HasPrefix(cd, "!") {
+				if strings.Contains(cd, pwN) && !strings.HasPrefix(cd, "!") {
 					hasPass = true
 				}
 			}
-			want := "User.Set(+puri.Host.Offs,+i)"
+			want := "User.Set(+" + root + ".Host.Offs,+" + iN + ")"
 			if hasPass {
-				want = "User.Set(+puri.Host.Offs,+passOffs) Pass.Set(+passOffs+1,+i)"
+				want = "User.Set(+" + root + ".Host.Offs,+" + pwN + ") Pass.Set(+" + pwN + "+1,+" + iN + ")"
 			}
 			c.check(strings.Join(sets, " ") == want, "U1", "backtrack-sets:"+key, token.NoPos, "a late '@' rebuilds User/Pass from (Host.Offs, passOffs, passOffs+1, i): "+strings.Join(sets, " "))
 			var resets []string
@@ -94,22 +131,22 @@ func ruleU1(c *Ctx) {
 					okNo = true
 				}
 			}
-			c.check(okNo && t.Locals["portNo"] == "+0", "U1", "backtrack-port:"+key, token.NoPos, "the numeric port and its accumulator restart at 0 (PortNo store: "+strings.Join(t.Stores, ",")+", portNo: "+t.Locals["portNo"]+")")
-			c.check(t.Locals["s"] == "+i+1" && r.name(t.To) == "uHost0", "U1", "backtrack-next:"+key, token.NoPos, "the host starts right after the '@'")
+			c.check(okNo && t.Locals[accN] == "+0", "U1", "backtrack-port:"+key, token.NoPos, "the numeric port and its accumulator restart at 0 (PortNo store: "+strings.Join(t.Stores, ",")+", accumulator: "+t.Locals[accN]+")")
+			c.check(t.Locals[sN] == "+"+iN+"+1" && r.name(t.To) == "uHost0", "U1", "backtrack-next:"+key, token.NoPos, "the host starts right after the '@'")
 			continue
 		}
 		// ordinary closing transition: X.Set(s, i) at the delimiter, next component starts at i+1
-		okSet := len(sets) == 1 && strings.HasSuffix(sets[0], ".Set(+s,+i)")
+		okSet := len(sets) == 1 && strings.HasSuffix(sets[0], setSI)
 		c.check(okSet, "U1", "close:"+key, token.NoPos, "the component is closed exactly at the delimiter: "+strings.Join(sets, " "))
-		c.check(t.Locals["s"] == "+i+1", "U1", "next:"+key, token.NoPos, "the next component starts one past the delimiter (s = "+t.Locals["s"]+")")
+		c.check(t.Locals[sN] == "+"+iN+"+1", "U1", "next:"+key, token.NoPos, "the next component starts one past the delimiter (start = "+t.Locals[sN]+")")
 	}
 	c.check(nclose >= 20, "U1", "close-count", token.NoPos, fmt.Sprintf("%d component-closing transitions checked (frozen minimum 20)", nclose))
 	// password candidate offset convention: every site that sets passOffs sets it to the ':' position
 	npo := 0
 	for _, t := range g {
-		if v, ok := t.Locals["passOffs"]; ok && v != "=" && v != "+0" {
+		if v, ok := t.Locals[pwN]; ok && v != "=" && v != "+0" {
 			npo++
-			c.check(v == "+i", "U1", fmt.Sprintf("passOffs:%s:%s", r.name(t.From), t.Bytes.String()), token.NoPos, "the password candidate offset is the position of the ':' at every site that records it ("+v+")")
+			c.check(v == "+"+iN, "U1", fmt.Sprintf("passOffs:%s:%s", r.name(t.From), t.Bytes.String()), token.NoPos, "the password candidate offset is the position of the ':' at every site that records it ("+v+")")
 		}
 	}
 	c.check(npo >= 3, "U1", "passOffs-sites", token.NoPos, fmt.Sprintf("%d sites record a password candidate", npo))
@@ -126,7 +163,7 @@ func ruleU1(c *Ctx) {
 		if len(t.Conds) > 0 {
 			key += ":" + strings.Join(t.Conds, "&")
 		}
-		c.check(len(sets) == 1 && strings.HasSuffix(sets[0], ".Set(+s,+i)"), "U1", key, t.RetPos, "at end of input the open component is closed with Set(s, i) where i == len(uri): "+strings.Join(sets, " "))
+		c.check(len(sets) == 1 && strings.HasSuffix(sets[0], setSI), "U1", key, t.RetPos, "at end of input the open component is closed with Set(s, i) where i == len(uri): "+strings.Join(sets, " "))
 	}
 	for _, k := range r.states {
 		c.check(seenState[k], "U1", "eoi-state:"+r.name(k), token.NoPos, "end-of-input switch handles state "+r.name(k))
@@ -162,10 +199,10 @@ func ruleU2(c *Ctx) {
 	c.check(got == 3, "U2", "consts", fd.Pos(), "three scheme constants found")
 	src := c.src(fd.Body)
 	c.check(strings.Contains(src, "| 0x20202020"), "U2", "fold", fd.Pos(), "the first four bytes are case-folded (|0x20202020) before the scheme switch")
-	c.check(strings.Contains(src, "case SchSIPS: if uri[4] == ':' {"), "U2", "sips-colon", fd.Pos(), "sips additionally requires uri[4] == ':'")
-	c.check(strings.Contains(src, "if len(uri) < 5 { return ErrURITooShort, len(uri) }"), "U2", "min-len", fd.Pos(), "inputs shorter than 5 bytes are rejected before uri[4] can be read")
+	c.check(patIn(src, "case SchSIPS: if @u[4] == ':' {"), "U2", "sips-colon", fd.Pos(), "sips additionally requires uri[4] == ':'")
+	c.check(patIn(src, "if len(@u) < 5 { return ErrURITooShort, len(@u) }"), "U2", "min-len", fd.Pos(), "inputs shorter than 5 bytes are rejected before uri[4] can be read")
 	// tel: the number is reported as the user with an empty host
-	c.check(strings.Contains(src, "if puri.URIType == TELuri { puri.User = puri.Host puri.Host.Reset() }"), "U2", "tel-swap", fd.Pos(), "for tel: the number is moved to User and Host is emptied")
+	c.check(patIn(src, "if @p.URIType == TELuri { @p.User = @p.Host @p.Host.Reset() }"), "U2", "tel-swap", fd.Pos(), "for tel: the number is moved to User and Host is emptied")
 }
 
 func init() {
